@@ -106,6 +106,8 @@ def step (s : St) (line : String) : St × String :=
   let (op, impl) := splitTab line
   match fields op with
   | "#case" :: _ => ({}, "-\t-\t-")
+  -- a session whose start-up did not see the terminal's answers (lone-ESC timer under load) is not judged
+  | "incomplete" :: _ => (s, "-\t-\t-")
   | ["env", bits, kf, ucs, app, ucs0, app0] =>
       match kf.toNat?, ucs.toNat?, hexBytes? app, ucs0.toNat? with
       | some kf, some ucs, some appB, some ucs0 =>
